@@ -70,6 +70,7 @@ class _Script:
         self.perm = None
         self.rows = None
         self.log = []
+        self.over = False
 
     def permutation(self, n):
         import numpy as np
@@ -78,14 +79,18 @@ class _Script:
 
     def randrange(self, n):
         self.log.append(('randrange', n))
-        return next(self.rows) % n
+        v = next(self.rows, None)
+        if v is None:
+            self.over = True        # more row indices drawn than the sampling strategy calls for
+            return 0
+        return v % n
 
     def randint(self, a, b):
         self.log.append(('randint', a, b))
         return a + next(self.rows) % (b - a + 1)
 
 
-def _expected_batch(names, rows, x, y, mode, R_draws):
+def _expected_batch(names, rows, x, y, mode, R_draws, strategy='joint'):
     """exact expectation of the per-feature value of one explained observation by enumerating every order and every row choice"""
     import numpy as np
     import random as pyrandom
@@ -103,7 +108,9 @@ def _expected_batch(names, rows, x, y, mode, R_draws):
                 st = BatchStorage(store_targets=True)
                 for r in rows:
                     st.update(r, 0)
-                ex = BatchSage(_model, list(names), _loss, n_inner_samples=1, storage=st)
+                from ixai.imputer import MarginalImputer
+                ex = BatchSage(_model, list(names), _loss, n_inner_samples=1, storage=st,
+                               imputer=MarginalImputer(_model, strategy, st))
                 sc.perm, sc.rows = list(perm), iter(draws)
                 if mode == 'many':
                     out = ex.explain_many([x], [y], verbose=False)
@@ -114,6 +121,8 @@ def _expected_batch(names, rows, x, y, mode, R_draws):
                 n += 1
     finally:
         np.random.permutation, pyrandom.randrange, pyrandom.randint = saved
+    if sc.over:
+        raise RuntimeError('more random.randrange draws than one per imputed feature (product) / one per sample (joint)')
     return {k: v / n for k, v in tot.items()}, sc.log
 
 
@@ -141,8 +150,34 @@ def BOUNDED(tier, seed):
         def w(S):
             return v(S) if S else -base
         shw = _shapley(names, w)
-        if adj != shw:
+        # BatchSage accumulates in floats (its sums start at 0.): compare up to rounding
+        if any(abs(float(adj[k]) - float(shw[k])) > 1e-9 * (1 + abs(float(shw[k]))) for k in names):
             fails.append({'key': 'sage_unbiased', 'summary': f'd={d}: expected SAGE contributions {adj} != Shapley values {shw} (enumerating all orders and rows)'})
+        # product strategy: an INDEPENDENT uniform row per imputed feature
+        def vp(S):
+            out = [f for f in names if f not in S]
+            tot = Fraction(0)
+            for combo in itertools.product(rows, repeat=len(out)):
+                z = dict(x)
+                for f, r in zip(out, combo):
+                    z[f] = r[f]
+                tot += _loss(y, _model({k: z[k] for k in names}))
+            return -tot / (len(rows) ** len(out))
+
+        def wp(S):
+            return vp(S) if S else -base
+        shp = _shapley(names, wp)
+        evals += 1
+        distinct.add(('sage_product', d))
+        try:
+            expp, _ = _expected_batch(names, rows, x, y, 'many', d * (d - 1) // 2, strategy='product')
+        except RuntimeError as ex:
+            fails.append({'key': 'draw_count_product', 'summary': f'd={d}, product strategy: {ex}'})
+            continue
+        if any(abs(float(expp[k]) - float(shp[k])) > 1e-9 * (1 + abs(float(shp[k]))) for k in names):
+            fails.append({'key': 'sage_unbiased_product', 'summary': f'd={d}, product strategy: expected SAGE contributions '
+                          f'{ {k: float(v) for k, v in expp.items()} } != Shapley values of the product-marginal game '
+                          f'{ {k: float(v) for k, v in shp.items()} }'})
     # original mode: background rows uniform over the whole data set
     names = ['a', 'b']
     rows = [{'a': Fraction(0), 'b': Fraction(1)}, {'a': Fraction(2), 'b': Fraction(-1)}]
